@@ -273,7 +273,7 @@ def check(ctx):
         if v is None: continue
         cases.append(v)
     tzs = ["UTC", "Asia/Kolkata", "America/St_Johns"]
-    reqs = []; meta = []
+    reqs = []; meta = []; dom_reqs = []
     unsupported = 0
     for i, v in enumerate(cases):
         os.environ["TZ"] = tzs[i % 3]; time.tzset()
@@ -284,6 +284,7 @@ def check(ctx):
             E = uaconv.float_table(floats)
             if sx[0] == "range": E += uaconv.gt_entries([sx[1], sx[2]])
             reqs.append([Sym("c08_roundtrip"), E, xmlns, sx]); meta.append(("value", v, xmlns, enc, out))
+            dom_reqs.append([Sym("c08_domain"), E, xmlns, sx])
             feats = [cls_of(v).split("[")[0]]
             s = str(sx)
             nontriv = sx[0] in ("list", "eu", "range", "ext", "loctext") or "[]" in s or any(c in s for c in "<>&\"'") or "nan" in s or "inf" in s or any(ord(c) > 127 for c in s)
@@ -296,6 +297,19 @@ def check(ctx):
         reqs.append([Sym("c08_decode"), uaconv.float_table(uaconv.texts_of_xml(f)) + uaconv.gt_entries(["2.0", "1.0", "0.0"]), False, f]); meta.append(("fragment", f, None, None, out))
         ctx.record(["fragment", f], True, ["fragment"])
     ans = vlib.run_model(reqs, shards=12)
+    # theorem C08_roundtrip, instantiated: for every generated value inside its domain (clean, dom08) the model's and the implementation's
+    # read-back value must be canon v
+    dans = vlib.run_model(dom_reqs, shards=12)
+    in_dom = 0; dom_by_class = {}
+    for (kind, v, xmlns, enc, out), a, da in zip(meta, ans, dans):
+        da = vlib.untext(da)
+        if da[0] != "true": continue
+        in_dom += 1; dom_by_class[cls_of(v).split("[")[0]] = dom_by_class.get(cls_of(v).split("[")[0], 0) + 1
+        want = ["ok", da[1]]
+        a2 = vlib.untext(a)
+        if a2[0] == "err" or dec_model(a2[1]) != want: ctx.disagree("theorem-instance", ["value", canon_sx(py2sx(v)), xmlns], "model round trip %r" % (a2,), want)
+        if out != want: ctx.fail("C08/%s/not-canon-in-theorem-domain" % cls_of(v), dict(kind="value", value=canon_sx(py2sx(v)), xmlns=xmlns), "read back as %r, theorem C08_roundtrip says %r" % (out, want))
+    ctx.notes["values_in_theorem_domain"] = "%d of %d" % (in_dom, len(dom_reqs)); ctx.notes["in_domain_by_class"] = dom_by_class
     for (kind, v, xmlns, enc, out), a in zip(meta, ans):
         if kind == "value":
             a = vlib.untext(a)
